@@ -138,6 +138,7 @@ SQueryOK(e) ==
     [] e.ev = "semhash" -> Req("C11", SHashOK(e))
 
 SQuery(e) ==
+  /\ Req("C07", "inexact" \notin DOMAIN e)
   /\ SQueryOK(e)
   /\ Req("C10", e.dirty = << >>)
   /\ hashes' = (IF e.ev = "semhash" THEN SHashUpd(e) ELSE hashes)
